@@ -218,7 +218,7 @@ class Prop(PropBase):
         else:
             data = rng.standard_normal(shape).astype(c["dtype"])
         rate = 1 * u.MHz
-        z = sigs.make(pb, c["cls"], c["N"], rate, t0=sigs.T0S[c["seed"] % 3], nchan=c["nchan"], extra=tuple(c["extra"]), data=data,
+        z = sigs.make(pb, c["cls"], c["N"], rate, t0=sigs.T0S[c["seed"] % 3], nchan=c["nchan"], extra=tuple(c["extra"]), data=data, layout="keep",
                       freq_align="bottom" if c["nchan"] % 2 == 0 else "center", center_freq=400 * u.MHz)
         return z
 
